@@ -9,22 +9,22 @@ From Coq Require Import List Arith Bool PeanoNat Lia.
 Import ListNotations.
 From BQ Require Import rt.Crash rt.CrashThm rt.CrashEx.
 
-(* From any reachable state (arbitrary ordinary traffic in flight, arbitrary earlier good
-   crashes), after the crash (SIGKILL, or an exception in the worker's runtime code) of a worker or of a
-   manager whose employees are workers, and
-   for every continuation [es] (any schedule; it may contain further such crashes, further
-   client calls and at most [budget] further spontaneous messages):
-   - the number of receive (Deliver/Eof) events in [es] is at most the explicit variant of
-     the state right after the crash (the variant strictly decreases with every receive and
-     never increases: C14_variant);
-   - whenever no receive is enabled any more - the end of every fair continuation - every
-     runtime process is down, every client connection is closed by the server and no client
-     is still inside a call;
-   - otherwise some receive is enabled (the system is never stuck half way). *)
+(* From any reachable state (arbitrary ordinary traffic in flight, arbitrary earlier crashes), after the
+   crash (SIGKILL, or an exception in the worker's runtime code) of ANY worker or manager - nested
+   manager topologies included - and for every continuation [es] (any schedule; it may contain further
+   crashes = second crash, further client calls and at most [budget] further spontaneous messages):
+   - the number of receive (Deliver/Eof) events in [es] is at most the explicit variant of the state
+     right after the crash (the variant strictly decreases with every receive and never increases:
+     C14_variant);
+   - whenever no receive is enabled any more - the end of every fair continuation - every runtime
+     process is down, every client connection is closed by the server and no client is still inside a call;
+   - otherwise some receive is enabled (the system is never stuck half way).
+   (Before repo commit ddab951 this held only for workers and managers of workers; the run
+   C14_nested_regression below was then the machine-checked refutation witness.) *)
 Theorem C14_crash_propagates : forall T attached out, wf_topo T = true -> forall s n e0 s1,
-  reach T attached out s -> (e0 = ECrash n /\ good_crash T n = true \/ e0 = EFail n) ->
+  reach T attached out s -> (e0 = ECrash n \/ e0 = EFail n) ->
   step T attached out s e0 = Some s1 ->
-  forall es s2, forallb (good_event T) es = true -> run T attached out s1 es = Some s2 ->
+  forall es s2, run T attached out s1 es = Some s2 ->
     count_recv es + variant T s2 <= variant T s1 /\
     (quiescent T attached s2 = true -> all_down T s2 = true) /\
     (quiescent T attached s2 = false -> exists up c k s3, step T attached out s2 (ERecv up c k) = Some s3).
@@ -35,27 +35,15 @@ Theorem C14_variant : forall T attached out, wf_topo T = true -> forall s e s',
   variant T s' <= variant T s /\ (is_recv e = true -> variant T s' < variant T s).
 Proof. exact step_variant. Qed.
 
-(* The full-strength statement (crash of ANY manager) is false for the code as it is: a
-   manager whose upstream connection reports EOF only unregisters it (ServerBase.
-   handle_disconnect: the connection is not an employee) and keeps running with its
-   workers.  Witness: server - manager 1 - manager 2 - worker 3, client 4; manager 1 is
-   killed while the client waits in result(). *)
-Definition C14_crash_propagates_full : Prop := forall T attached out, wf_topo T = true -> forall s n s1 es s2,
-  reach T attached out s -> step T attached out s (ECrash n) = Some s1 ->
-  run T attached out s1 es = Some s2 -> quiescent T attached s2 = true -> all_down T s2 = true.
-
-Theorem C14_crash_propagates_refuted_nested : ~ C14_crash_propagates_full.
-Proof. exact nested_refutes. Qed.
-
-(* the witness run itself (rt/CrashEx.v: nested_T, nested_pre, nested_post), replayed on real processes
-   by the harness: after the crash of manager 1 the system becomes quiescent with manager 2 and its
-   worker still up, although the client has been served its exception *)
-Theorem C14_nested_witness : exists s s1 s2,
+(* the former refutation witness (rt/CrashEx.v: server - manager 1 - manager 2 - worker 3, client 4; manager 1
+   is killed while the client waits in result()): now everything goes down.  Replayed on the real handlers
+   (corpus/C14/nested_witness.json) and on real processes (scenario nested_top_manager). *)
+Example C14_nested_regression : exists s s1 s2,
   run nested_T false S (init nested_T 10) nested_pre = Some s /\
   step nested_T false S s (ECrash 1) = Some s1 /\
   run nested_T false S s1 nested_post = Some s2 /\
-  quiescent nested_T false s2 = true /\ all_down nested_T s2 = false /\
-  alive s2 2 = true /\ alive s2 3 = true /\ cend s2 2 = false /\
+  quiescent nested_T false s2 = true /\ all_down nested_T s2 = true /\
+  alive s2 2 = false /\ alive s2 3 = false /\ cend s2 2 = false /\
   outcomes s2 4 = [ORaised; OSubmitted 7].
 Proof. exact nested_run. Qed.
 
@@ -86,10 +74,9 @@ Proof. exact no_partial_result. Qed.
 (* rt/CrashEx.v: ex_T = server 0; manager 1 with workers 2,3; manager 4 with worker 5; clients 6,7.
    Client 6 is blocked in result(), client 7 has submitted; worker 2 is killed. *)
 Example C14_crash_nonvacuous :
-  wf_topo ex_T = true /\ good_crash ex_T 2 = true /\
+  wf_topo ex_T = true /\
   exists s s1 s2, run ex_T false S (init ex_T 10) ex_pre = Some s /\ reach ex_T false S s /\
     step ex_T false S s (ECrash 2) = Some s1 /\ run ex_T false S s1 ex_post = Some s2 /\
-    forallb (good_event ex_T) ex_post = true /\
     quiescent ex_T false s2 = true /\ all_down ex_T s2 = true /\
     blocked s1 6 = Some (RResult 7) /\ outcomes s2 6 = [ORaised; OSubmitted 7] /\
     outcomes s2 7 = [ORaised; OSubmitted 9] /\ count_recv ex_post = 6 /\ variant ex_T s1 = 143.
